@@ -19,3 +19,8 @@ package util
 //@ requires rollout != nil ==> rollout.Spec.Strategy.BlueGreen != nil || rollout.Spec.Strategy.Canary != nil
 //@ ensures result == ite(rollout == nil, 0 - 1, nextIdx(rollout, CurrentStepIndex))
 //@ pure
+
+// C09: the status of a StatefulSet-like custom workload is untyped; whatever the field holds, reading it does not panic.
+//@ func parseStatusStringFromUnstructured
+//@ props C09
+//@ requires object != nil
